@@ -8,6 +8,9 @@ C07 — line-protocol driver of the models (core only).  One op per line, one an
   time <pos> <slen> <x…>         → ok <hex bytes> | err        (Time.Encoding; uint64 bit patterns, hex)
   timedec <hex bytes>            → vals <x…> | err             (Time.Decoding; non-library modes)
   bool <0/1 string | ->           → ok <hex bytes>              (Boolean.Encoding)
+  float <slen> <glen|x> <bits…>  → ok <hex bytes> | err        (Float.Encoding; float64 bit patterns, hex;
+                                                                 glen = x: the gorilla encoder refuses the block)
+  floatdec <hex bytes>           → vals <bits…> | err          (Float.Decoding; null / same / RLE modes)
   booldec <hex bytes>            → bits <0/1 string | -> | err (Boolean.Decoding)
 
 `zlen` is the observed length of the zstd (snappy, …) payload for the block's raw bytes: the
@@ -17,6 +20,7 @@ library mode both sides print the frame header in hex followed by `+<payload len
 import OG.C07.IntBlock
 import OG.C07.TimeBlock
 import OG.C07.Bool
+import OG.C07.FloatFrame
 
 namespace OG.C07
 
@@ -136,6 +140,25 @@ def stepTime (pos slen : Nat) (xs : List W) : String :=
     | t :: _ => if t.toNat / 16 = OG.Gen.C07.timeCompressSnappy then showFrame 9 bs else showBytes bs
     | [] => showBytes bs
 
+/-- `isInt` of lib/compress/float.go on Lean's native binary64. -/
+def fIsInt (f : Float) : Bool :=
+  if f >= 0 && f < 4294967296.0 then f.toUInt64.toFloat == f
+  else f.ceil == f && f.floor == f
+
+def nativePreds : FloatPreds where
+  isInt x := fIsInt (Float.ofBits x.toNat.toUInt64)
+  lessDecimal x := fIsInt (Float.ofBits x.toNat.toUInt64 * 1000.0)
+
+def stepFloat (slen : Nat) (glen : Option Nat) (vs : List W) : String :=
+  match encodeFloat nativePreds (dummy slen) (fun _ => glen.map fun n => List.replicate n 0) vs with
+  | none => "err"
+  | some bs =>
+    match bs with
+    | t :: _ =>
+      if t.toNat / 16 = OG.Gen.C07.floatCompressedSnappy ∨ t.toNat / 16 = OG.Gen.C07.floatCompressedGorilla
+      then showFrame 1 bs else showBytes bs
+    | [] => showBytes bs
+
 def step (line : String) : String :=
   let (op, rest) := splitOp line
   match op with
@@ -181,6 +204,23 @@ def step (line : String) : String :=
     | none => "bad-op"
     | some bs =>
       match decodeTime (fun _ => none) bs with
+      | none => "err"
+      | some xs => showVals "vals" (xs.map (·.toNat))
+  | "float" =>
+    match takeNats 1 rest with
+    | some ([sl], r) =>
+      let tok := (r.takeWhile (· ≠ ' ')).toString
+      let r2 := (r.drop (tok.length + 1)).toString
+      let gl : Option (Option Nat) := if tok == "x" then some none else tok.toNat?.map some
+      match gl, (hexWords? r2).bind w64s? with
+      | some g, some xs => stepFloat sl g xs
+      | _, _ => "bad-op"
+    | _ => "bad-op"
+  | "floatdec" =>
+    match hexBytes? rest with
+    | none => "bad-op"
+    | some bs =>
+      match decodeFloat (fun _ => none) (fun _ => none) bs with
       | none => "err"
       | some xs => showVals "vals" (xs.map (·.toNat))
   | "bool" =>
